@@ -119,10 +119,14 @@ class World:
                 P, m = args
                 r = self.proj[P].attach_module(self.mod[m], loading=True)
                 ret = self.mid(r)
+            elif act == "set_note_num":
+                q, n = args
+                self.pat[q].data[0][0].module = n
             elif act == "new_module":
                 P, m = args
                 cls = self.cls_of(m)
-                o = self.proj[P].new_module(cls)
+                # (every other time with the constructor's own `parent` keyword: the module names its project before it is attached)
+                o = self.proj[P].new_module(cls, parent=self.proj[P]) if m % 2 else self.proj[P].new_module(cls)
                 self.mod[m] = o
                 ret = m
             elif act == "attach_none":
@@ -264,6 +268,8 @@ def random_history(rnd, tid, nm, np_, length, extra_output=False):
             act, args = "iadd", [P, items]
         elif r < 0.80:
             act, args = "saveload", [P]
+        elif r < 0.83:
+            act, args = "set_note_num", [rnd.choice([q for q in range(1, np_ + 1) if q % 2 == 1]), rnd.choice([32768, 65535, 255, 256])]
         elif r < 0.90:
             act, args = "set_note_mod", [rnd.choice([q for q in range(1, np_ + 1) if q % 2 == 1]), rnd.randrange(1, nm + 1)]
         else:
